@@ -376,3 +376,22 @@ Proof.
       destruct (Z.ltb_spec 0 minMID); cbn [go_ID_MID go_ID_RID]; [rewrite u64_small by lia|]; reflexivity. }
   cbn [bind]. rewrite (i64_small (x - 1)) by lia. reflexivity.
 Qed.
+
+From C14 Require Import ProofsBorders.
+
+(* thm:C14_lid_borders_exact restated over the GENERATED getLIDsBorders: called with the fraction's own index
+   (sealed_le with block minima when sealed, plain comparison when active) it returns, without panic or fuel
+   exhaustion, borders between which lie exactly the documents with MID in [qf, qt] *)
+Lemma lid_borders_exact_gen : forall f qf qt,
+  ids_ok (f_ids f) -> desc_sorted (f_ids f) -> 0 <= qf < two64 -> 0 <= qt < two64 ->
+  (qf = 0 -> ~ In (0, 0) (f_ids f)) -> Z.of_nat (length (stub_id :: f_ids f)) < 4294967296 ->
+  exists lo hi,
+    go_processor_getLIDsBorders qf qt (zix (frac_le f) (Z.of_nat (length (stub_id :: f_ids f)))) = Val (u32 lo, u32 hi) /\
+    Model.slice (f_ids f) lo hi = filter (in_range qf qt) (f_ids f).
+Proof.
+  intros f qf qt Hok Hs Hqf Hqt H0 Hlen.
+  pose proof (frac_scan_spec f qf qt Hok Hs ltac:(lia) H0) as Hsc. unfold frac_scan in Hsc.
+  destruct (lids_borders (frac_le f) (Z.of_nat (length (stub_id :: f_ids f))) qf qt) as [[lo hi]|] eqn:E; [|discriminate].
+  exists lo, hi. split; [|congruence].
+  apply gen_getLIDsBorders_refines; try assumption. lia.
+Qed.
